@@ -7,7 +7,7 @@ Constructs == {"top", "subquery-from", "subquery-join", "subquery-in", "subquery
                \* a select as an operand of a term of the outer statement: function argument, comparison operand, CASE result
                "function-arg", "function-arg-orderby", "cmp-operand", "case-result",
                \* the set operation's own ORDER BY; the INSERT whose row source the statement is, with and without an alias on the target
-               "setop-base-ordered", "insert-select-aliased-target"}
+               "setop-base-ordered", "insert-select-aliased-target", "setop-other-class-operand"}
 VARIABLES elem, c1, c2
 Init == elem \in Elements /\ c1 \in Constructs /\ c2 \in Constructs \cup {"none"}
 Next == UNCHANGED <<elem, c1, c2>>
